@@ -18,9 +18,9 @@ Proof.
   - destruct rs; [reflexivity|discriminate].
   - destruct rs as [|r rs]; [discriminate|]. cbn [map] in H. injection H as H1 H2.
     inversion F as [|? ? Hr Fr]; subst.
-    cbn [client_collect]. rewrite H1. cbn [bind filter].
+    cbn [client_collect]. rewrite H1. cbn [bind filter]. rewrite Hr. cbn [negb].
     destruct (is_dot_name (fst r)); cbn [negb]; [exact (IH rs H2 Fr)|].
-    rewrite Hr. cbn [negb]. rewrite (IH rs H2 Fr). reflexivity.
+    rewrite (IH rs H2 Fr). reflexivity.
 Qed.
 
 (* one failing line fails the whole listing *)
@@ -30,7 +30,18 @@ Lemma client_collect_err {I : Type} (parse : text -> res (text * I)) has_type pr
 Proof.
   intros F E. induction F as [|x pre [r [Hr Ht]] _ IH]; cbn [app client_collect].
   - rewrite E. reflexivity.
-  - rewrite Hr. cbn [bind]. destruct (is_dot_name (fst r)); [exact IH|]. rewrite Ht. cbn [negb]. rewrite IH. reflexivity.
+  - rewrite Hr. cbn [bind]. rewrite Ht. cbn [negb]. destruct (is_dot_name (fst r)); [exact IH|]. rewrite IH. reflexivity.
+Qed.
+
+(* a parsed line without a type fact is a ValueError for the whole listing — even a "." line *)
+Lemma client_collect_typeless {I : Type} (parse : text -> res (text * I)) has_type pre l post r :
+  Forall (fun x => exists r, parse x = Ok r /\ has_type (snd r) = true) pre ->
+  parse l = Ok r -> has_type (snd r) = false ->
+  client_collect parse has_type (pre ++ l :: post) = Err E_VALUE.
+Proof.
+  intros F E Ht. induction F as [|x pre [r' [Hr Ht']] _ IH]; cbn [app client_collect].
+  - rewrite E. cbn [bind]. rewrite Ht. reflexivity.
+  - rewrite Hr. cbn [bind]. rewrite Ht'. cbn [negb]. destruct (is_dot_name (fst r')); [exact IH|]. rewrite IH. reflexivity.
 Qed.
 
 (* the chain: a line the unix parser accepts is the unix parser's result, whatever the others do *)
@@ -118,27 +129,13 @@ Proof.
   - apply Forall_map. apply Forall_forall. reflexivity.
 Qed.
 
-(* F13b at the level of Client.list(): one set-uid/set-gid/sticky entry without the execute bit
-   makes the whole LIST listing raise, when the other parsers of the chain reject the line too *)
-Theorem client_list_ST_fails half two nowdt others pre post st ds name :
-  Forall (fun x => exists r, parse_list_line (parse_list_line_unix half two nowdt) others x = Ok r /\ true = true) pre ->
-  no_ST (st_mode st) = false -> name <> [] -> rstrip name = name ->
-  Forall (fun p => exists t, p (build_list_string_with st ds name) = Err t) others ->
-  client_collect (parse_list_line (parse_list_line_unix half two nowdt) others) (fun _ => true)
-                 (pre ++ build_list_string_with st ds name :: post) = Err E_VALUE.
-Proof.
-  intros F HST Nn Nr Fo. apply client_collect_err; [exact F|].
-  apply parse_list_line_all_fail; [|exact Fo].
-  exists E_VALUE. apply list_line_ST_rejected; assumption.
-Qed.
-
 Lemma mlsx_entry_has_type st kind : entry_has_type (entry_of (mlsx_facts st kind)) = true.
 Proof. destruct st as [s|]; reflexivity. Qed.
 
 (* the MLSD listing through the same loop *)
 Theorem client_mlsd_collect dir :
   Forall (fun e => entry_name_ok (de_name e)) dir ->
-  client_collect (fun l => Ok (parse_mlsx_line l)) entry_has_type (mlsd_lines dir)
+  client_collect parse_mlsx_line entry_has_type (mlsd_lines dir)
   = Ok (map (fun e => (de_name e, entry_of (mlsx_facts (de_stat e) (de_kind e)))) dir).
 Proof.
   intro F.
@@ -147,7 +144,7 @@ Proof.
   - rewrite filter_not_dot; [reflexivity|]. apply Forall_map. eapply Forall_impl; [|exact F].
     intros e (_ & A & B). split; assumption.
   - unfold mlsd_lines. rewrite !map_map. apply map_ext_Forall. eapply Forall_impl; [|exact F].
-    intros e (N & _). cbv beta. f_equal. rewrite build_mlsx_string_eq.
+    intros e (N & _). cbv beta. rewrite build_mlsx_string_eq.
     apply parse_mlsx_facts; [unfold mlsx_facts; destruct (de_stat e); discriminate|apply mlsx_facts_clean|exact N].
   - apply Forall_map. apply Forall_forall. intros e _. cbn [snd]. apply mlsx_entry_has_type.
 Qed.
@@ -228,6 +225,11 @@ Proof.
     rewrite build_mlsx_string_eq.
     rewrite parse_mlsx_facts; [reflexivity|unfold mlsx_facts; destruct st; discriminate|apply mlsx_facts_clean|exact N].
 Qed.
+
+(* an MLST reply whose second line carries no pathname is a ValueError, not facts *)
+Lemma client_stat_mlst_no_name a l c :
+  parse_mlsx_line (lstrip l) = Err E_VALUE -> client_stat_mlst (a :: l :: c) = Err E_VALUE.
+Proof. intro H. unfold client_stat_mlst. cbn [nth_error]. rewrite H. reflexivity. Qed.
 
 (* ---------------- Client.stat over the listing fallback ---------------- *)
 Lemma find_unique {A I : Type} (key : A -> text) (val : A -> I) (l : list A) (x : A) :
